@@ -13,6 +13,8 @@
 #include <fstream>
 #include <limits>
 #include <unistd.h>
+#include <cmath>
+#include <algorithm>
 #include <sys/wait.h>
 #include "driver_ext.h"
 
@@ -333,6 +335,79 @@ static void run_line(Ctx &C, const std::string &line, long seq) {
     }
     else if (cmd == "ke") { long flag = T.integer(); VectorNd q = T.vec(), qd = T.vec(); out.begin(seq, "ke"); out.d(Utils::CalcKineticEnergy(m, q, qd, flag != 0)); out.end(); }
     else if (cmd == "pe") { long flag = T.integer(); VectorNd q = T.vec(); out.begin(seq, "pe"); out.d(Utils::CalcPotentialEnergy(m, q, flag != 0)); out.end(); }
+    else if (cmd == "updboth") {
+      VectorNd q = T.vec(), qd = T.vec(), qdd = T.vec();
+      UpdateKinematics(m, q, qd, qdd);
+      std::vector<SpatialVector> v0 = m.v, a0 = m.a; std::vector<SpatialTransform> X0 = m.X_base;
+      scramble(m, 3);
+      UpdateKinematicsCustom(m, &q, &qd, &qdd);
+      double dmax = 0.;
+      for (size_t i = 1; i < m.mBodies.size(); i++) {
+        for (int c = 0; c < 6; c++) { dmax = std::max(dmax, fabs(v0[i][c] - m.v[i][c])); dmax = std::max(dmax, fabs(a0[i][c] - m.a[i][c])); }
+        for (int c = 0; c < 3; c++) { dmax = std::max(dmax, fabs(X0[i].r[c] - m.X_base[i].r[c])); for (int e = 0; e < 3; e++) dmax = std::max(dmax, fabs(X0[i].E(c, e) - m.X_base[i].E(c, e))); }
+      }
+      out.begin(seq, "updiff"); out.d(dmax); out.end();
+    }
+    else if (cmd == "ltl") {
+      VectorNd q = T.vec(), b = T.vec();
+      MatrixNd H = MatrixNd::Zero(m.qdot_size, m.qdot_size); CompositeRigidBodyAlgorithm(m, q, H, true);
+      MatrixNd L = H; SparseFactorizeLTL(m, L);
+      MatrixNd LtL = L.transpose() * L;
+      out.begin(seq, "LtL"); out.mat(LtL); out.end();
+      VectorNd x = b; SparseSolveLTx(m, L, x); SparseSolveLx(m, L, x);
+      out.line(seq, "ltlsolve", x);
+    }
+    else if (cmd == "hprops") {
+      VectorNd q = T.vec(), qd = T.vec();
+      MatrixNd H = MatrixNd::Zero(m.qdot_size, m.qdot_size); CompositeRigidBodyAlgorithm(m, q, H, true);
+      double asym = 0.; for (int i = 0; i < H.rows(); i++) for (int j = 0; j < H.cols(); j++) asym = std::max(asym, fabs(H(i, j) - H(j, i)));
+      out.begin(seq, "Hasym"); out.d(asym); out.end();
+      out.begin(seq, "halfqHq"); out.d(0.5 * qd.dot(H * qd)); out.end();
+      out.begin(seq, "ke"); out.d(Utils::CalcKineticEnergy(m, q, qd, true)); out.end();
+    }
+    else if (cmd == "join" || cmd == "separate") {
+      Matrix3d E = T.m3(); Vector3d r = T.v3();
+      double ma = T.num(); Vector3d ca = T.v3(); Matrix3d Ia = T.m3();
+      double mb = T.num(); Vector3d cb = T.v3(); Matrix3d Ib = T.m3();
+      Body a(ma, ca, Ia), b(mb, cb, Ib);
+      try {
+        if (cmd == "join") a.Join(SpatialTransform(E, r), b); else a.Separate(SpatialTransform(E, r), b);
+        out.begin(seq, cmd.c_str()); out.d(a.mMass); out.v3(a.mCenterOfMass); out.m3(a.mInertia); out.end();
+      } catch (Errors::RBDLError &e) { out.begin(seq, cmd.c_str()); out.s("throw"); out.end(); }
+    }
+    else if (cmd == "l1") {
+      std::string op = T.str();
+      out.begin(seq, ("l1_" + op).c_str());
+      if (op == "apply" || op == "applyT" || op == "applyAdj") {
+        Matrix3d E = T.m3(); Vector3d r = T.v3(); SpatialVector v = T.sv(); SpatialTransform X(E, r);
+        out.sv(op == "apply" ? X.apply(v) : (op == "applyT" ? X.applyTranspose(v) : X.applyAdjoint(v)));
+      } else if (op == "inv") { Matrix3d E = T.m3(); Vector3d r = T.v3(); out.st(SpatialTransform(E, r).inverse()); }
+      else if (op == "mul") { Matrix3d E = T.m3(); Vector3d r = T.v3(); Matrix3d E2 = T.m3(); Vector3d r2 = T.v3(); out.st(SpatialTransform(E, r) * SpatialTransform(E2, r2)); }
+      else if (op == "tomat" || op == "tomatadj" || op == "tomatT") {
+        Matrix3d E = T.m3(); Vector3d r = T.v3(); SpatialTransform X(E, r);
+        SpatialMatrix M = op == "tomat" ? X.toMatrix() : (op == "tomatadj" ? X.toMatrixAdjoint() : X.toMatrixTranspose());
+        for (int i = 0; i < 6; i++) for (int j = 0; j < 6; j++) out.d(M(i, j));
+      }
+      else if (op == "rbiapply" || op == "rbiapplyT" || op == "rbimat") {
+        Matrix3d E = T.m3(); Vector3d r = T.v3(); double ms = T.num(); Vector3d c = T.v3(); Matrix3d Ic = T.m3();
+        SpatialRigidBodyInertia I = SpatialRigidBodyInertia::createFromMassComInertiaC(ms, c, Ic); SpatialTransform X(E, r);
+        SpatialRigidBodyInertia R = op == "rbiapply" ? X.apply(I) : (op == "rbiapplyT" ? X.applyTranspose(I) : I);
+        SpatialMatrix M = R.toMatrix(); for (int i = 0; i < 6; i++) for (int j = 0; j < 6; j++) out.d(M(i, j));
+      }
+      else if (op == "rbimulv") { double ms = T.num(); Vector3d c = T.v3(); Matrix3d Ic = T.m3(); SpatialVector v = T.sv();
+        SpatialRigidBodyInertia I = SpatialRigidBodyInertia::createFromMassComInertiaC(ms, c, Ic); out.sv(I * v); }
+      else if (op == "crossm" || op == "crossf") { SpatialVector a = T.sv(), b = T.sv(); out.sv(op == "crossm" ? crossm(a, b) : crossf(a, b)); }
+      else if (op == "qmul") { double a[4], b[4]; for (int k = 0; k < 4; k++) a[k] = T.num(); for (int k = 0; k < 4; k++) b[k] = T.num();
+        Quaternion r = Quaternion(a[0], a[1], a[2], a[3]) * Quaternion(b[0], b[1], b[2], b[3]); for (int k = 0; k < 4; k++) out.d(r[k]); }
+      else if (op == "qtomat") { double a[4]; for (int k = 0; k < 4; k++) a[k] = T.num(); out.m3(Quaternion(a[0], a[1], a[2], a[3]).toMatrix()); }
+      else if (op == "qfrommat") { Matrix3d E = T.m3(); Quaternion r = Quaternion::fromMatrix(E); for (int k = 0; k < 4; k++) out.d(r[k]); }
+      else if (op == "qrot") { double a[4]; for (int k = 0; k < 4; k++) a[k] = T.num(); Vector3d v = T.v3(); out.v3(Quaternion(a[0], a[1], a[2], a[3]).rotate(v)); }
+      else if (op == "qomega") { double a[4]; for (int k = 0; k < 4; k++) a[k] = T.num(); Vector3d w = T.v3(); Vector4d r = Quaternion(a[0], a[1], a[2], a[3]).omegaToQDot(w); for (int k = 0; k < 4; k++) out.d(r[k]); }
+      else if (op == "xrot") { double ang = T.num(); Vector3d ax = T.v3(); out.st(Xrot(ang, ax)); }
+      else if (op == "gauss") { long n = T.integer(); MatrixNd A(n, n); for (long i = 0; i < n; i++) for (long j = 0; j < n; j++) A(i, j) = T.num(); VectorNd b = T.vec(); VectorNd x = VectorNd::Zero(n); LinSolveGaussElimPivot(A, b, x); out.vec(x); }
+      else out.s("unknown-op");
+      out.end();
+    }
     else if (!run_ext(C, cmd, T, seq)) { out.begin(seq, "unknown"); out.s(cmd.c_str()); out.end(); }
   } catch (Errors::RBDLError &e) {
     out.begin(seq, "status"); out.s("throw"); out.end();
